@@ -329,6 +329,12 @@ def big_fd(rec):
     return fd
 
 
+def as_given(inl):
+    """The inlet cells as a caller may pass them: list, tuple or integer array (chosen from the list itself)."""
+    k = (len(inl) + sum(inl)) % 4
+    return list(inl) if k < 2 else tuple(inl) if k == 2 else np.array(inl, dtype=np.int64)
+
+
 def inlet_seq(rng, n, pool=None, kmax=3, p_repeat=0.5):
     """A LIST of inlet cells as a caller may write the set: any order, cells possibly listed more than once."""
     src = list(pool) if pool else list(range(n))
@@ -363,23 +369,28 @@ def load_impl():
     the tree under check (the cache directory is shared with concurrent checks of other trees and pruned by
     them: an import that finds it gone falls back silently to a stale prebuilt extension in <tree>/src)."""
     for attempt in range(8):
-        ext = Path(cm.use_impl()).resolve()
         try:
+            ext = Path(cm.use_impl()).resolve()
             import c_hydrodiy_gis
             from hydrodiy.gis import grid as hygrid
             where = Path(c_hydrodiy_gis.__file__).resolve()
             if ext in where.parents and getattr(hygrid, "c_hydrodiy_gis", None) is c_hydrodiy_gis:
                 return hygrid
-        except ImportError:
-            pass
+        except (ImportError, cm.BrokenTie):
+            if attempt == 7:
+                raise
         time.sleep(0.5 + attempt)
     raise cm.BrokenTie("the extension rebuilt from the tree under check could not be imported "
                        "(build cache pruned concurrently)")
 
 
-def make_catchment(nrows, ncols, fd):
+# storage types a flow direction raster may come in (codes 0..128 fit all of them)
+DTYPES = [np.int64, np.int64, np.int64, np.int64, np.int32, np.int16, np.uint8, np.float64, np.float32]
+
+
+def make_catchment(nrows, ncols, fd, dtype=np.int64):
     from hydrodiy.gis.grid import Grid, Catchment
-    g = Grid("fd", ncols, nrows, dtype=np.int64)
+    g = Grid("fd", ncols, nrows, dtype=dtype)
     g.data = np.array(fd, dtype=np.int64).reshape(nrows, ncols)
     return Catchment("c", g), g
 
@@ -473,7 +484,7 @@ def gen_session(rng, S):
             ops.append(["clone", s, a])
         else:
             ops.append(["touch", s, rng.choice(["isin", "to_dict", "str", "roundtrip"])])
-    return {"grids": grids, "ops": ops}
+    return {"grids": grids, "ops": ops, "dtypes": [np.dtype(rng.choice(DTYPES)).name for _ in grids]}
 
 
 def run(ctx):
@@ -484,13 +495,23 @@ def run(ctx):
                 "every object is read again after the later delineations; sessions: objects on 1-3 grids (often the "
                 "same shape, shared buffer sizes) through interleaved delineate_area / compute_flowpathlengths / "
                 "upstream / downstream / delineate_river / clone / readers, every live object and every result "
-                "handed out re-checked after each step; non-trivial = distinct (kind, shape class, outcome class) "
-                "signature")
+                "handed out re-checked after each step; inlet LISTS (cells repeated, any order, list / tuple / "
+                "array) and, after the delineations, downstream / upstream of every cell asked again from the same "
+                "object (its flow grid is the one supplied); flow grids stored as int64/int32/int16/uint8/float; "
+                "large grids (vectorised oracle, no case terms): lines 1 x L and L x 1, serpentines, all-diagonal "
+                "zigzags, converging and random-forest grids, border cycles, with L just below / at / above 2^15, "
+                "2^16, 10^5, the pinned default buffer sizes (10^6) and the defaults read from the signatures of the "
+                "code under check - rivers and catchments with DEFAULT options (complete below the documented "
+                "capacity), with buffers of exactly / one more / one less than needed and larger than the default; "
+                "non-trivial = distinct (kind, shape class, outcome class) signature")
     ctx.trusted = cm.STD_TRUST
     ctx.tested_not_proved = ["hole filling (scipy.ndimage.binary_fill_holes): containment tested only",
                              "binary64 path lengths equal the real-number value to 1e-9 (tested)",
                              "independence of the results from the other objects / earlier and later calls of the "
-                             "process (sessions): tested only - the Coq model is a function of one call's arguments"]
+                             "process (sessions): tested only - the Coq model is a function of one call's arguments",
+                             "large grids and default buffer sizes (10^5..10^6 cells): tested against the vectorised "
+                             "oracle only (no correspondence case terms); the default nval of delineate_area / "
+                             "delineate_river is read from the signatures (fail-closed) and probed on both sides"]
     proved = cm.prove_with_kernels(ctx, ["c_upstream", "c_downstream", "c_neighbours", "c_delineate_river",
                                          "c_delineate_flowpathlengths_in_catchment", "c_delineate_area"])
     hygrid = load_impl()
@@ -554,7 +575,6 @@ def run(ctx):
         down, indeg, ids = vec(G)
         stats["flow_grids_queried_again"] += 1
         ctx.count(("requery", G["cls"], sigtag))
-        cm.mark(dict(G["base"], call="downstream/upstream of every cell, asked again", **extra))
         got = np.asarray(cat.downstream(ids), dtype=np.int64)
         w = np.nonzero(got != down)[0] if got.shape == down.shape else np.array([0])
         if len(w):
@@ -602,9 +622,9 @@ def run(ctx):
             cm.mark(dict(G["base"], call="delineate_area", outlet=outlet, inlets=inlets, nval=nval, **extra))
         try:
             if nval is None:
-                cat.delineate_area(outlet, list(inlets) if inlets is not None else None)
+                cat.delineate_area(outlet, as_given(inlets) if inlets is not None else None)
             else:
-                cat.delineate_area(outlet, list(inlets) if inlets is not None else None, nval=nval)
+                cat.delineate_area(outlet, as_given(inlets) if inlets is not None else None, nval=nval)
             area, filled = read_area(cat)
         except ValueError:
             area = filled = None
@@ -770,10 +790,13 @@ def run(ctx):
         return (f"CRiver {cm.coq_z(nrows)} {cm.coq_z(ncols)} {cm.coq_float(geo[0])} {cm.coq_float(geo[1])} "
                 f"{cm.coq_float(geo[2])} {cm.coq_zlist(fd)} {cm.coq_z(start)} {cm.coq_z(nval)} (Some {t})")
 
-    def do_grid(nrows, ncols, fd, outlets, inlet_sets, nvals, full=True):
+    def do_grid(nrows, ncols, fd, outlets, inlet_sets, nvals, full=True, dtypes=True):
         n = nrows * ncols
-        cat, g = make_catchment(nrows, ncols, fd)
+        dtype = rng.choice(DTYPES) if dtypes else np.int64
+        cat, g = make_catchment(nrows, ncols, fd, dtype)
         G = grid_info(nrows, ncols, fd)
+        if dtype is not np.int64:
+            G["base"] = dict(G["base"], flow_grid_dtype=np.dtype(dtype).name)
         head, base = G["head"], G["base"]
         if full:
             ids = list(range(n))
@@ -874,7 +897,10 @@ def run(ctx):
                       "ncols": ncols},
              "cls": (rec["kind"], bool(rec.get("transposed")), min(nrows, 3), min(ncols, 3), n.bit_length()),
              "desc": f"{rec['kind']} grid {nrows}x{ncols}"}
-        g = hygrid.Grid("fd", ncols, nrows, dtype=np.int64)
+        dtype = rng.choice(DTYPES)
+        if dtype is not np.int64:
+            B["base"]["flow_grid_dtype"] = np.dtype(dtype).name
+        g = hygrid.Grid("fd", ncols, nrows, dtype=dtype)
         g.data = fd2
         B["g"] = g
         root, north, ndiag, _ = v_reach(down, diag)
@@ -968,9 +994,9 @@ def run(ctx):
                 + (f" (after {len(history)} earlier call(s) on the same object)" if history else ""))
         try:
             if nval is None:
-                cat.delineate_area(outlet, list(inl) if inlets is not None else None)
+                cat.delineate_area(outlet, as_given(inl) if inlets is not None else None)
             else:
-                cat.delineate_area(outlet, list(inl) if inlets is not None else None, nval=nval)
+                cat.delineate_area(outlet, as_given(inl) if inlets is not None else None, nval=nval)
             area = np.asarray(cat.idxcells_area, dtype=np.int64)
             filled = np.asarray(cat.idxcells_area_filled, dtype=np.int64)
         except ValueError as e:
@@ -1077,7 +1103,7 @@ def run(ctx):
             A = area_vec(B, cat, outlet, None, None, history, want=full, paths_budget=paths_budget)
             # (b) inlets on the main chain, written with repeated entries; the part below them is short
             #     enough for the flow path lengths
-            K = rng.choice([1, 2, 50, 1500, 2999])
+            K = rng.choice([1, 2, 50, 1500, 2999] + ([7000, 12000] if thorough else []))
             c = start
             chain = np.empty(L, dtype=np.int64)
             dlist = down.tolist()
@@ -1115,8 +1141,8 @@ def run(ctx):
         still have to be what the property states for the call that produced them."""
         Gs = [grid_info(*g) for g in sess["grids"]]
         glive = []
-        for G in Gs:
-            g = hygrid.Grid("fd", G["ncols"], G["nrows"], dtype=np.int64)
+        for G, dt in zip(Gs, sess["dtypes"]):
+            g = hygrid.Grid("fd", G["ncols"], G["nrows"], dtype=np.dtype(dt).type)
             g.data = np.array(G["fd"], dtype=np.int64).reshape(G["nrows"], G["ncols"])
             glive.append(g)
         objs = {}     # slot -> {"cat", "gi", "rec", "prec", "step"}
@@ -1125,7 +1151,8 @@ def run(ctx):
         stats["sessions"] += 1
 
         def sofar(step, **kw):
-            return dict({"session": {"grids": sess["grids"], "ops": ops[:step + 1]}, "read_after_step": step}, **kw)
+            return dict({"session": {"grids": sess["grids"], "flow_grid_dtypes": sess["dtypes"],
+                                     "ops": ops[:step + 1]}, "read_after_step": step}, **kw)
 
         def audit(step, final):
             for slot, o in objs.items():
@@ -1139,9 +1166,10 @@ def run(ctx):
             for h in held:
                 if h["at"] != step and h["ok"]:
                     judge_held(h, step)
-            # the flow grid of every live object: downstream / upstream of every cell asked again
+            # the flow grid of every live object: downstream / upstream of every cell asked again (after
+            # each delineation of any object, and at the end)
             for slot, o in objs.items():
-                if o.get("fdok", True):
+                if o.get("fdok", True) and (final or ops[step][0] == "area"):
                     o["fdok"] = requery(o["cat"], Gs[o["gi"]],
                                         sofar(step, how="session", object=f"slot {slot}"), "session")
 
@@ -1296,8 +1324,12 @@ def run(ctx):
                             "diagonal_turns": rng.random() < 0.5, "diagonal": rng.random() < 0.5,
                             "end_sink": rng.random() < 0.5, "transposed": rng.random() < 0.5,
                             "seed": rng.randrange(2 ** 31)})
+    tbig = {}
     for rec in recipes:
-        do_big(rec, budget)
+        t0 = time.time()
+        B = do_big(rec, budget)
+        tbig[f"{rec['kind']} {B['nrows']}x{B['ncols']}"] = round(time.time() - t0, 2)
+    ctx.notes["big_grid_seconds"] = dict(sorted(tbig.items(), key=lambda kv: -kv[1])[:8])
     ctx.notes["big_grid_recipes"] = len(recipes)
     phase("large grids / default options")
 
@@ -1308,12 +1340,12 @@ def run(ctx):
         for fd in itertools.product(VALUES, repeat=n):
             subsets = [s for r in range(n + 1) for s in itertools.combinations(range(n), r)]
             # the same sets written with cells listed more than once / in another order
-            subsets += [tuple(inlet_seq(rng, n, p_repeat=0.8)) for _ in range(2)]
-            do_grid(nrows, ncols, list(fd), range(n), subsets, [n + 2], full=True)
+            subsets.append(tuple(inlet_seq(rng, n, p_repeat=0.8)))
+            do_grid(nrows, ncols, list(fd), range(n), subsets, [n + 2], full=True, dtypes=False)
     for (nrows, ncols) in [(2, 2), (1, 4), (4, 1)]:
         for _ in range(ctx.scale(150, 1500)):
             fd = [rng.choice(VALUES) for _ in range(4)]
-            subsets = [(), tuple(rng.sample(range(4), rng.randint(1, 2))), tuple(inlet_seq(rng, 4, p_repeat=0.7))]
+            subsets = [(), tuple(inlet_seq(rng, 4, kmax=2, p_repeat=0.5))]
             do_grid(nrows, ncols, fd, range(4), subsets, [rng.choice([1, 2, 3, 4, 6])], full=True)
     phase("exhaustive and sampled tiny grids")
     # ---- random grids
